@@ -78,7 +78,7 @@ def run(repo, res):
     # what one root may hold: nothing; a module pkg.py (alone or next to a top-level module mod.py); a package pkg, empty or with a source or a compiled submodule mod
     # (outside the quantifier: namespace packages - a directory pkg without __init__.py -, pkg.py next to pkg/, mod.py next to mod.so)
     STATES = [(), ('pkg.py',), ('pkg.py', 'mod.py'), ('pkg/__init__.py',), ('pkg/__init__.py', 'pkg/mod.py'), ('pkg/__init__.py', 'pkg/mod.so'),
-              ('pkg/__init__.py', 'pkg/mod/__init__.py')]
+              ('pkg/__init__.py', 'pkg/mod/__init__.py'), 'a regular file']      # (a zip or egg on the path: nothing can be found below it)
 
     def importlib_finds(name, fs):
         search = list(roots)
@@ -105,7 +105,8 @@ def run(repo, res):
     bad2 = []
     try:
         for combo in itertools.product(STATES, repeat=len(roots)):
-            fs = {'%s/%s' % (r, f) for r, st in zip(roots, combo) for f in st}
+            fs = {'%s/%s' % (r, f) for r, st in zip(roots, combo) if st != 'a regular file' for f in st}
+            it.fs_plain_files = {r for r, st in zip(roots, combo) if st == 'a regular file'}
             # each name asked of a new project, and after the other name was asked of the same project (what one lookup leaves
             # behind - caches, the table of loaded modules - must not change the answer to the next)
             for first, name in ((None, 'pkg.mod'), (None, 'pkg'), ('pkg', 'pkg.mod'), ('pkg.mod', 'pkg')):
@@ -140,12 +141,13 @@ def run(repo, res):
                 else:
                     ok = got == want
                 if not ok:
-                    bad2.append((sorted(fs), name if first is None else '%s (after get_module(%r) on the same project)' % (name, first),
+                    bad2.append((sorted(fs) + ['%s is a regular file' % r for r in sorted(it.fs_plain_files)], name if first is None else '%s (after get_module(%r) on the same project)' % (name, first),
                                  got, want or 'ImportError'))
     except Uninterpretable as e:
         raise AnalysisError('get_module is outside the interpretable subset: %s' % e)
     finally:
         it.fs = None
+        it.fs_plain_files = None
         it.mtimes = None
     res.obligations += paths - 1
     res.discharged += paths - 1 - (1 if bad2 else 0)
